@@ -578,7 +578,12 @@ class Func2(Entry):
             qg = ig.QGauss2(c["nx"], c["ny"])
             res = qg.integrate_func([float.fromhex(c["x1"]), float.fromhex(c["x2"])],
                                     [float.fromhex(c["y1"]), float.fromhex(c["y2"])], func)
+            wshape = [int(k) for k in qg.wgrid.shape]
+            ishape = [int(k) for k in np.broadcast_shapes(rec["zv"].shape, qg.wgrid.shape)]
+            if len(wshape) != 2 or len(ishape) != 2:
+                raise RuntimeError("weight grid / integrand is not 2-d: %r %r" % (wshape, ishape))
             return {"x": hxl(x), "wx": hxl(wx), "y": hxl(y), "wy": hxl(wy), "shape": list(rec["zv"].shape),
+                    "wshape": wshape, "ishape": ishape,
                     "xg": hxl(rec["xg"].ravel()), "yg": hxl(rec["yg"].ravel()), "zv": hxl(rec["zv"].ravel()), "res": hx(res)}
         return core.guarded(run)
 
@@ -594,8 +599,9 @@ class Func2(Entry):
             except Exception:
                 return "v_func2 [] [] [] [] %s [] [] [] (Err %s)" % (rng, out[1])
         o = out[1]
-        return "v_func2 %s %s %s %s %s %s %s %s (Ok %s)" % (cfl(o["x"]), cfl(o["wx"]), cfl(o["y"]), cfl(o["wy"]), rng,
-                                                            cfl(o["xg"]), cfl(o["yg"]), cfl(o["zv"]), cf(o["res"]))
+        return "v_func2s %s %s (%s, %s) (%s, %s) %s %s %s %s %s %s %s %s (Ok %s)" % (
+            cz(c["nx"]), cz(c["ny"]), cz(o["wshape"][0]), cz(o["wshape"][1]), cz(o["ishape"][0]), cz(o["ishape"][1]),
+            cfl(o["x"]), cfl(o["wx"]), cfl(o["y"]), cfl(o["wy"]), rng, cfl(o["xg"]), cfl(o["yg"]), cfl(o["zv"]), cf(o["res"]))
 
     def nontrivial(self, c, out):
         return c["nx"] >= 2 and c["ny"] >= 2
